@@ -2,7 +2,10 @@
 
 package x
 
-import "golang.org/x/telemetry/internal/verifh/c15/lib/tab"
+import (
+	"golang.org/x/telemetry/internal/verifh/c15/lib/tab"
+	"golang.org/x/telemetry/internal/verifh/c15/lib/y"
+)
 
 // inlCall / inlInc are small enough to be inlined: a frame of theirs shares
 // its PC with the frame of the function they are inlined into (rendered with
@@ -41,3 +44,17 @@ func init() {
 	tab.Reg("x.Inl1", Inl1)
 	tab.Reg("x.Inl2", Inl2)
 }
+
+// InlY inlines helpers of package y (a cross-package inlined callee).
+//
+//go:noinline
+func InlY(ch []int, i int) {
+	if i+1 < len(ch) {
+		y.CallNext(ch, i)
+	} else {
+		y.DoInc()
+	}
+	tab.Sink++
+}
+
+func init() { tab.Reg("x.InlY", InlY) }
